@@ -10,12 +10,16 @@ three record disciplines, dictionary, union) and all serde value kinds, at any n
 
 * `NoCap ext b x` (`Lemmas/C01CompDefs.lean`): `vsize ext x ≤ room b`, the value fits into the head room of the
   builder, so that no CAPACITY check can refuse it (`increment_last` beyond `i32::MAX`, view buffers / lengths beyond
-  `i32::MAX`, dictionary keys beyond the key type).  `small_NoCap` gives the closed form
+  `i32::MAX`, dictionary keys beyond the key type, and — repo fix fe68100 — the checked per-variant row counter
+  `current_offset[v] + 1` of a union beyond `i32::MAX`).  `small_NoCap` gives the closed form
   `room b = min (2^31 - 1 - used b) (keysRoom b)`;
 * `total dt n md`: the explicit NON-capacity exclusion found by this proof (see `default_refused` below): a nullable
   struct / fixed-size list must have children that support `serialize_default` (a union: SOME variant is not an
   `UnknownVariant` placeholder and the first such supports it — repo fix 837fa53, `default_first_real`; before the
-  fix it had to be variant 0), and unions have ≤ 128 variants;
+  fix it had to be variant 0), and unions have ≤ 128 variants.  Since repo fix fe68100 a default is one counted ROW of
+  that variant, and a `None` of a `FixedSizeList(_, m)` (size 1) sends `m` of them: `serialize_default` is supported by
+  a fixed-size list of size `m > 1` only when no union is reachable by defaults below it (`noDefUF`; see
+  `default_fsl_union_refused`);
 * the hypotheses of R2: `WFB`, `Safe`, `Shape`, `noRaw`.
 
 Corollaries: `push_err_iff`, `push_err_sound` (the error-position refinement C18 needs: an error is never spurious),
@@ -269,5 +273,26 @@ theorem default_variant0_pinned :
     (pushDefaultKAt exUnionFs 0 1).isOk = false ∧ firstReal exUnionFs = 1 ∧
     (pushDefaultKAt exUnionFs (firstReal exUnionFs) 1).isOk = true := by
   refine ⟨by decide +kernel, by decide +kernel, by decide +kernel⟩
+
+/-! ### the exclusion added with the checked union row counters (repo fix fe68100) -/
+
+/-- `l: FixedSizeList(Union[0: A = Null], 2)?` -/
+def exFslUnionDT : DataType :=
+  .fixedSizeList (.mk "element" (.union (.cons 0 (.mk "A" .null true []) .nil) .dense) false []) 2
+
+/-- its builder after `2^30 - 1` lists (`2^31 - 2` rows of variant `A`): one more row fits, two do not -/
+def exFslUnion : B := .fixedSizeList "$.l" ⟨"element", false, []⟩ 2 1073741823 (some []) 0
+  (.union "$.l.element" (.cons (.null "$.l.element.A" 2147483646) ⟨"A", true, []⟩ .nil) [] [] [2147483646])
+
+/-- **the `noDefUF` clause of `total` is needed**: the documented mapping sends `None` at this nullable fixed-size
+list to `null`, `None` has size 1 and the head room is 1 (`NoCap` holds), but `FixedSizeListBuilder::serialize_none`
+sends TWO defaults to the union below, each one row of variant `A`: the second is refused by the checked counter.
+`total` is false here (validity bits elided: the state is not claimed reachable by evaluation, only by counting). -/
+theorem default_fsl_union_refused :
+    room exFslUnion = 1 ∧ NoCap {} exFslUnion .none ∧ interpDT {} exFslUnionDT true [] .none = .ok .null ∧
+    (push {} exFslUnion .none).isOk = false ∧ (push {} exFslUnion .none).isPanic = false ∧
+    total exFslUnionDT true [] = false := by
+  refine ⟨by decide +kernel, by unfold NoCap; decide +kernel, by decide +kernel, by decide +kernel, by decide +kernel,
+    by decide +kernel⟩
 
 end SaModel.Props.C01
